@@ -1,6 +1,7 @@
 import math
 
 import numpy
+from scipy.special import eval_jacobi
 from . import circle
 
 def phaseFromZernikes(zCoeffs, size, norm="noll", rot=0):
@@ -85,16 +86,14 @@ def zernikeRadialFunc(n, m, r):
         ndarray: The Zernike radial function
     """
 
-    R = numpy.zeros(r.shape)
-    # Can cast the below to "int", n,m are always *both* either even or odd
-    for i in range(0, int((n - m) / 2) + 1):
-
-        R += numpy.array(r**(n - 2 * i) * (((-1)**(i)) *
-                         math.factorial(n - i)) /
-                         (math.factorial(i) *
-                          math.factorial(int(0.5 * (n + m) - i)) *
-                          math.factorial(int(0.5 * (n - m) - i))),
-                         dtype='float')
+    # R_n^m(r) = (-1)^k r^m P_k^(m,0)(1 - 2 r^2), k = (n-m)/2, with P the Jacobi
+    # polynomial. The explicit power series has alternating coefficients of
+    # size ~4^(n/2): summed in floating point it loses all digits from n ~ 40
+    # (|R| of 75 instead of <= 1 at n = 50) and overflows at n = 171.
+    n, m = int(n), abs(int(m))
+    k = (n - m) // 2
+    r = numpy.asarray(r, dtype=float)
+    R = (-1)**k * r**m * eval_jacobi(k, m, 0, 1 - 2 * r**2)
     return R
 
 
